@@ -37,6 +37,7 @@ class PathCtx:
         self.alternatives: List[list] = []
         self.obligations: List[tuple] = []  # (name, pc snapshot, goal term, info)
         self.assumed: List[T] = []
+        self.lemmas: List[T] = []  # proved-then-assumed facts (not restrictions of the input space)
         self.notes: List[str] = []
         self.nonzero: List[T] = []  # divisors assumed non-zero (A1)
         self._feasible = feasible
@@ -87,10 +88,12 @@ class PathCtx:
             for x in (c.args if c.op == "and" else (c,)):
                 if x not in self.pc:
                     self.pc.append(x)
-                    self.assumed.append(x)
+                    (self.lemmas if note.startswith("lemma") else self.assumed).append(x)
 
     def prove(self, name: str, cond, **info):
         c = as_bool_term(cond)
+        info = dict(info)
+        info["_lemmas"] = tuple(self.lemmas)
         self.obligations.append((name, tuple(self.pc), c, info))
 
 
